@@ -159,6 +159,28 @@ func runC07(o *opts) (*summary, error) {
 		}
 	}
 
+	// (5b) ... and lists that are consecutive windows of ONE table of the caller's (door 1's codes, then door 2's, ...): the
+	// second call's codes are where the first call's list has its spare capacity - they are sent as the caller wrote them
+	for rep := 0; rep < 40; rep++ {
+		table := make([]uint32, 16)
+		for i := range table {
+			table[i] = uint32(100001 + rng.Intn(899998))
+		}
+		at := 0
+		pair := []callSpec{}
+		for door := 1; door <= 4 && at < len(table); door++ {
+			n := rng.Intn(5)
+			if at+n > len(table) {
+				n = len(table) - at
+			}
+			pair = append(pair, passcodesCall(g.serial(), uint8(door), table[at:at+n])) // (projected now, before any call is made)
+			at += n
+		}
+		for _, cs := range pair {
+			emit(cs, "passcodes-windows")
+		}
+	}
+
 	// (6) SetTimeProfile: dates {zero, valid} x segment maps with missing keys x ordered pairs of HH:mm
 	hh := []int{0, 1, 59, 60, 61, 8*60 + 30, 12 * 60, 12*60 + 1, 23 * 60, 23*60 + 59, 1440, 17 * 60}
 	for _, fz := range []bool{false, true} {
@@ -178,6 +200,47 @@ func runC07(o *opts) (*summary, error) {
 					}
 				}
 			}
+		}
+	}
+
+	// (6b) "a call is rejected only for these reasons": dates and times of day beyond what the wire format can carry
+	// (year -5, year 20000, HH:mm built from negative numbers or beyond 24:00) are no reason - the call passes every
+	// documented check and is sent (what the unrepresentable field is sent as is not specified)
+	{
+		far := types.Date(time.Date(20000, 1, 1, 0, 0, 0, 0, time.UTC))
+		neg := types.Date(time.Date(-5, 3, 4, 0, 0, 0, 0, time.UTC))
+		ok := types.ToDate(2024, 1, 1)
+		odd := []types.HHmm{types.NewHHmm(-1, 30), types.NewHHmm(100, 100), types.NewHHmm(8, 30)}
+		noon := types.NewHHmm(12, 0)
+		must := func(op string, f func(u uhppote.IUHPPOTE) (any, error)) {
+			emit(callSpec{op: op, args: M{"serial": u32(1), "extreme": true, "mustsend": true}, call: f}, "only-these-reasons")
+		}
+		for _, from := range []types.Date{far, neg, ok} {
+			for _, to := range []types.Date{far, neg, ok} {
+				from, to := from, to
+				must("PutCard", func(u uhppote.IUHPPOTE) (any, error) {
+					return u.PutCard(1, types.Card{CardNumber: 8000001, From: from, To: to, Doors: map[uint8]uint8{1: 1}, PIN: 0})
+				})
+				for _, h := range odd {
+					h := h
+					must("AddTask", func(u uhppote.IUHPPOTE) (any, error) {
+						return u.AddTask(1, types.Task{Task: types.DoorControlled, Door: 1, From: from, To: to, Start: h, Weekdays: types.Weekdays{time.Monday: true}})
+					})
+					// (a segment whose end is not before its start under the library's own Before)
+					st, en := h, noon
+					if en.Before(st) {
+						st, en = en, st
+					}
+					must("SetTimeProfile", func(u uhppote.IUHPPOTE) (any, error) {
+						return u.SetTimeProfile(1, types.TimeProfile{ID: 2, From: from, To: to, Weekdays: types.Weekdays{time.Monday: true},
+							Segments: types.Segments{1: {Start: st, End: en}, 2: {Start: noon, End: noon}, 3: {}}})
+					})
+				}
+			}
+		}
+		for _, t := range []time.Time{time.Date(20000, 1, 1, 0, 0, 0, 0, time.UTC), time.Date(-5, 1, 1, 0, 0, 0, 0, time.UTC)} {
+			t := t
+			must("SetTime", func(u uhppote.IUHPPOTE) (any, error) { return u.SetTime(1, t) })
 		}
 	}
 
